@@ -21,6 +21,12 @@ func (group *Group) AddRtmpPushSession(url string, session *rtmp.PushSession) {
 	group.mutex.Lock()
 	defer group.mutex.Unlock()
 	if group.url2PushProxy != nil {
+		// the publisher may have left while this session was still connecting: stopPushIfNeeded could not see it then,
+		// and nothing would close it now
+		if group.rtmpPubSession == nil && group.rtspPubSession == nil {
+			_ = session.Dispose()
+			return
+		}
 		group.url2PushProxy[url].pushSession = session
 	}
 }
